@@ -139,7 +139,7 @@ def _check_structure(rec, P, V, facets, nrm, off, edges, nb, sig, ambiguous, con
     if convex_cls:
         sim = np.asarray(get(P, "simplices"))
         areas = {k: 0.0 for k in keys}
-        okori = True
+        signs = set()
         oksub = True
         for tri in sim:
             t = [int(x) for x in tri]
@@ -150,10 +150,14 @@ def _check_structure(rec, P, V, facets, nrm, off, edges, nb, sig, ambiguous, con
             k = home[0]
             cr = np.cross(V[t[1]] - V[t[0]], V[t[2]] - V[t[0]])
             areas[k] += 0.5 * np.linalg.norm(cr)
-            if np.dot(cr, nrm[idx[k]]) <= 0:
-                okori = False
+            signs.add(bool(np.dot(cr, nrm[idx[k]]) > 0))
         rec.check(oksub, "simplices_within_faces", sig)
-        rec.check(okori, "simplices_outward", sig)
+        # the property asks that the simplices triangulate the faces; that they are wound alike (so that signed sums over
+        # them mean something) is checked, which way round is not promised anywhere (the class picks it from the sign of
+        # an origin-based volume, which is rounding noise beyond ~1e5 diameters from the origin)
+        rec.check(len(signs) <= 1, "simplices_wound_alike", sig)
+        if signs == {False}:
+            rec.label("simplices_all_inward")
         want = [geom.face_area_centroid(V[ofaces[k]])[0] for k in keys]
         rec.close("simplices_tile_faces", [areas[k] for k in keys], want, 1e4 * EPS * L * L * len(V), sig)
 
